@@ -5,6 +5,7 @@
 From AV Require Import Base.Bytes Base.Outcome Hash.HashModel Spec.SpecOps Spec.SpecReal Spec.Versions Xml.Lexer Xml.Parser Xml.Funnel Xml.FunnelParser
   Xml.StrictValidDef Xml.StrictValid Xml.ParserExamples.
 From AV Require Import Hash.HashRealElement Hash.HashRealAttr Hash.HashRealEnum.
+Open Scope list_scope.
 
 (* [U] strict loading succeeds exactly when lenient loading succeeds without warnings (same tree, same final parser
    state: identifiables, references, version, compatibility mask); lenient warnings (stored newest first) => strict
